@@ -739,17 +739,25 @@ impl Stringify for Value {
                             right,
                             location,
                         } => {
-                            let split = if let Expression::ToStringWithoutUndefined { .. }
-                            | Expression::LitStr { .. } = &**left
-                            {
-                                true
-                            } else if let Expression::ToStringWithoutUndefined { .. }
-                            | Expression::LitStr { .. } = &**right
-                            {
-                                true
-                            } else {
-                                false
-                            };
+                            // Only the concatenations built for `text{{binding}}` forms are split;
+                            // every binding in them is wrapped in `ToStringWithoutUndefined`.
+                            // A `+` written by the user (e.g. `{{ 'a' + b }}`) must stay an expression:
+                            // `a{{b}}` renders null and undefined differently.
+                            fn is_text_concat(expr: &Expression) -> bool {
+                                match expr {
+                                    Expression::Plus { left, right, .. } => {
+                                        matches!(
+                                            &**left,
+                                            Expression::ToStringWithoutUndefined { .. }
+                                        ) || matches!(
+                                            &**right,
+                                            Expression::ToStringWithoutUndefined { .. }
+                                        ) || is_text_concat(left)
+                                    }
+                                    _ => false,
+                                }
+                            }
+                            let split = is_text_concat(expr);
                             if split {
                                 split_expression(&left, stringifier, start_location, location)?;
                                 split_expression(&right, stringifier, location, end_location)?;
